@@ -92,8 +92,9 @@ def build(cls, mask, img, uncond, ctx, seed, libnet=False, bounded=False):
     def create(i, o):
         if libnet:
             if img:
-                return nets.ConvResidualNet(i, o, hidden_channels=4, num_blocks=1)
-            return nets.ResidualNet(i, o, hidden_features=6, context_features=ctx, num_blocks=1)
+                return nets.ConvResidualNet(i, o, hidden_channels=4, num_blocks=1, dropout_probability=0.3)
+            # (with dropout: inactive in evaluation mode, where the layer is checked)
+            return nets.ResidualNet(i, o, hidden_features=6, context_features=ctx, num_blocks=1, dropout_probability=0.3)
         return make_mixnet(torch, i, o, img, ctx, seed)
 
     ishape = [H, W] if img else None
@@ -239,6 +240,14 @@ def check_state(st, cls, ctx, seed, libnet=False):
             if not torch.equal(bits(y[:, i]), bits(x[:, i])):
                 fails.append(dict(case, clause="identity_not_bitwise", detail="identity feature %d (mask %d) is not returned bit-for-bit: %s -> %s" % (i, mask[i], x[:, i].flatten()[:4].tolist(), y[:, i].flatten()[:4].tolist())))
                 break
+    # (1r) library conditioner (built with dropout), evaluation mode: the transformed features are a function of
+    # the inputs and the context - the same call again gives the same result
+    if libnet and not bounded and cls != "UMNN":
+        with torch.no_grad():
+            y_again = f(x.clone(), c)[0]
+        n += 1
+        if not torch.equal(bits(y_again), bits(y)):
+            fails.append(dict(case, clause="dependency", detail="evaluation mode, conditioner with dropout: the same call twice gives outputs that differ by %.3g (the transformed features are not a function of identity features and context)" % float((y_again - y).abs().max())))
     # (1a'') image inputs in another dense memory layout (height and width swapped in memory, same values):
     # the same result, identity features bit for bit.  (Library conditioner: convolutional, any image size.)
     if img and libnet and not bounded and cls != "UMNN":
